@@ -25,7 +25,7 @@ CLAIMED = {
          "'Every call terminates' is decided as bounded progress under a step budget; time inside the standard library/decimal128 is only visible through allocation and the inconclusive-only wall-clock watchdog.", "§6 C09"),
  "C11": ("reference-model monitor on code points + UTF-8 validity invariant + metamorphic renaming relation",
          "Position/length/width/order results of every string operation are compared with a code-point model for every position in [-len-2, len+2] and extremes; every string of every result is checked for UTF-8 validity; renaming a-z to 2-/3-/4-byte letters in expression and data must rename the result identically (library against itself).",
-         "lower/upper outside ASCII, ordering operators on strings, negative find_* positions where readings differ and split('' , count >= length) are not judged.", "§6 C11"),
+         "lower/upper of characters with special or context-dependent casing, ordering operators on strings, negative find_* positions where readings differ and split('' , count >= length) are not judged.", "§6 C11"),
  "C12": ("reference-model + direct-oracle monitor over an exhaustive slice lattice",
          "x[start:stop:step] for n in 0..7 over a 25x25x17 boundary lattice (incl. +-2^62, 2^63-1, -2^63) on arrays and on strings of mixed-width code points (exhaustive), seeded n <= 300 with random 64-bit parameters and the projection rule, slices nested inside other slices' projections / multi-selects / filters / expression references over 2-D and 3-D arrays, prose-like strings (long single-byte runs with sparse multi-byte characters) under every step 1..80, a 70000-element array and 70000-character strings with bounds around 2^15/2^16/2^17 in every slice position, compared with the specification's slice algorithm evaluated on big integers by two independent oracles.",
          "Integer literals beyond 64 bits are a grammar gap.", "§6 C12"),
@@ -67,6 +67,25 @@ CLAIMED = {
          "Enumerating expressions are judged only when the model confirms no order-sensitive consumer is reached; a dependence needing a particular hash seed may need more processes (distinct member orders actually seen are counted).", "§6 C15"),
 }
 
+
+# additions of round 9 (appended to the level text of the check)
+EXTRA = {
+ "C01": " Join-shaped expressions (a per-element let above a root-, literal- or variable-anchored sub-expression that reads the variable; 26+6 bodies x 9 outer forms x 2..257 elements) and 34 shapes over pairs of names that collide under twelve common 32-bit string hashes (as variables, identifiers, keys, strings) are compared with the model as well.",
+ "C02": " lower/upper are run over every code point that has a case mapping and compared with the model wherever all Unicode-aware implementations agree.",
+ "C03": " The hostile values include a pool of standard-library carriers (math/big numbers, raw JSON, pointers to scalars and containers, readers, marshalers), each as a useful value, a malformed one and a typed nil.",
+ "C04": " Every sequence of up to 3/4 pieces from a 13-piece byte alphabet (delimiters, backslash, 1-/2-byte characters, stray and truncated UTF-8 bytes) is placed between each pair of string delimiters; quoted identifiers with lone surrogate escapes must be rejected or keep everything written around the surrogate (direct oracle).",
+ "C05": " sum/avg over 2..1500 numbers spanning far more than 34 orders of magnitude, built so that every left-to-right total is exact (any regrouping of the additions loses members).",
+ "C08": " Static faults are also checked against 15 top-level documents of standard-library types (raw JSON well-formed/truncated/empty, byte slices, readers, big numbers, typed nils).",
+ "C09": " Every magnitude family runs on three size classes of subject data (10 / 300 / 5000 elements and characters).",
+ "C11": " lower/upper of every code point that has a case mapping must be valid UTF-8 and measure consistently under length/split/reverse.",
+ "C12": " A periodic stream slices strings of 64..4096 code points made of repeated mixed-width units whose byte length is an exact multiple of the code point count (and the same plus one character).",
+ "C13": " sort_by/max_by/min_by over a root-anchored array with keys that read a per-element let variable are compared with the model (join-shaped cases, 2..257 evaluations of one call site).",
+ "C15": " A twin-texts stream requires cold, warm and freshly compiled outcomes of a text to agree after a text that a careless normal form would merge with it (Unicode white space at the edges, case / white space / normalisation inside literals; 11 length classes up to 20000 bytes) has been evaluated.",
+ "C17": " The projection-vs-map identity is also run on join-shaped right-hand sides over 2..257 elements.",
+ "C19": " Join-shaped cases, hash-hostile names (pairs colliding under twelve 32-bit string hashes) and one let binding and reading back 100..200000 distinct names are included.",
+ "C20": " 41 number spellings (in range, at the edge, beyond the decimal range, malformed json.Number texts) are compared with the strings that spell them in 30 forms with constant answers (direct oracle).",
+}
+
 ALL = ["C%02d" % i for i in range(1, 21)]
 
 def main():
@@ -80,6 +99,7 @@ def main():
         if pid not in CLAIMED:
             continue
         tech, text, note, ref = CLAIMED[pid]
+        text += EXTRA.get(pid, "")
         checks.append({
             "property_id": pid,
             "quick_cmd": "./check %s quick" % pid,
